@@ -577,11 +577,6 @@ func (pr *ProtoArray) inSubtree(anchorIndex NodeIndex, lookupIndex NodeIndex) (u
 
 var HeadUnknownErr = errors.New("array has invalid state, head has no index")
 
-type prunedNode struct {
-	canonical bool
-	node      *ProtoNode
-}
-
 // Update the tree with new finalization information (or alternatively another trusted root and slot)
 // The slot may point to a gap slot,
 // in which case the node with the anchor block of the anchor block-root is pruned,
@@ -597,44 +592,50 @@ func (pr *ProtoArray) OnPrune(ctx context.Context, anchorRoot Root, anchorSlot S
 		// nothing to do
 		return nil
 	}
-	// Get the head, it will help quickly determine if pruned nodes are canonical
-	head, err := pr.FindHead(anchorRoot, anchorSlot)
+	// The pruned nodes that are canonical are those on the chain from the old root to the anchor.
+	count := int(anchorIndex - pr.indexOffset)
+	canonical := make([]bool, count)
+	anchorNode, err := pr.getNode(anchorIndex)
 	if err != nil {
 		return err
 	}
-	headIndex, ok := pr.indices[head]
-	if !ok {
-		return HeadUnknownErr
+	for i := anchorNode.TransitionParent; i != NONE && i >= pr.indexOffset; {
+		canonical[i-pr.indexOffset] = true
+		i = pr.nodes[i-pr.indexOffset].TransitionParent
 	}
-	// Remove the `self.indices` and `self.blockSlots` key/values for all the to-be-deleted nodes.
-	j := 0
-	var pruned []prunedNode
-	for i := pr.indexOffset; i < anchorIndex; i++ {
-		node := &pr.nodes[j]
-		if pr.sink != nil {
-			canonical := node.BestDescendant == headIndex
-			pruned = append(pruned, prunedNode{canonical, node})
-		}
-	}
-	// Send pruned nodes to the node sink (empty if no sink). Continue until it fails.
+	// Send pruned nodes to the node sink (if any). Continue until it fails.
 	// Only prune what we successfully sent to the sink.
 	prunedUpTo := 0
-	for _, p := range pruned {
-		if err = pr.sink.OnPrunedNode(ctx, p.node.Ref, p.canonical); err != nil {
-			break
+	for ; prunedUpTo < count; prunedUpTo++ {
+		if pr.sink != nil {
+			if err = pr.sink.OnPrunedNode(ctx, pr.nodes[prunedUpTo].Ref, canonical[prunedUpTo]); err != nil {
+				break
+			}
 		}
-		prunedUpTo++
 	}
-	// adjust the slot we know for the anchor root, everything before it was pruned.
-	pr.blockSlots[anchorRoot] = anchorSlot
-	for _, p := range pruned[:prunedUpTo] {
-		delete(pr.indices, p.node.Ref)
-		// Remove the block-slots ref
-		delete(pr.blockSlots, p.node.Ref.Root)
-		// TODO: is this slicing bad for GC?
-		pr.nodes = pr.nodes[1:]
-		// update offset
-		pr.indexOffset++
+	for _, node := range pr.nodes[:prunedUpTo] {
+		delete(pr.indices, node.Ref)
+	}
+	// TODO: is this slicing bad for GC?
+	pr.nodes = pr.nodes[prunedUpTo:]
+	pr.indexOffset += NodeIndex(prunedUpTo)
+	// The remaining nodes do not have the pruned nodes as parents anymore.
+	for i := range pr.nodes {
+		node := &pr.nodes[i]
+		if node.TransitionParent != NONE && node.TransitionParent < pr.indexOffset {
+			node.TransitionParent = NONE
+		}
+		if node.ForkchoiceParent != NONE && node.ForkchoiceParent < pr.indexOffset {
+			node.ForkchoiceParent = NONE
+		}
+	}
+	// Track the first slot that is still known of each remaining block root, forget the others.
+	pr.blockSlots = make(map[Root]Slot, len(pr.nodes))
+	for i := range pr.nodes {
+		ref := pr.nodes[i].Ref
+		if slot, ok := pr.blockSlots[ref.Root]; !ok || ref.Slot < slot {
+			pr.blockSlots[ref.Root] = ref.Slot
+		}
 	}
 	return err
 }
